@@ -1275,8 +1275,89 @@ def discover(ctx, prims) -> List[Inst]:
                             except Unknown:
                                 pass
             where = f"{mod.rel}:{c.lineno}"
+            # a construction inside a module-level factory function is one instance per call of the factory
+            fac = None
+            for a_ in ancestors(c):
+                if isinstance(a_, FUNC_TYPES):
+                    fac = a_ if isinstance(parent(a_), ast.Module) else None
+                    break
+            if fac is not None:
+                envs = _factory_envs(repo, prims, mod, fac, 0)
+                if not envs:
+                    ctx.note(f"C10.R3: {where} {norm(c)[:60]} sits in {fac.name}(), which is never called with constants; "
+                             f"not tabled")
+                    continue
+            else:
+                envs = [(env, "")]
+            for env, site_label in envs:
+                _table_one(ctx, repo, prims, out, c, ci, fam, mod, num, env, where, site_label, qf_cls, fp_cls)
+    return out
 
-            def evarg(a):
+
+def _bind_call(num: "Num", fn_node, call: ast.Call, env: Dict[str, Any], where: str) -> Dict[str, Any]:
+    """Parameter environment of `fn_node` for the call (constants only)."""
+    a = fn_node.args
+    params = [x.arg for x in a.args]
+    out: Dict[str, Any] = {}
+    if any(isinstance(x, ast.Starred) for x in call.args) or any(k.arg is None for k in call.keywords) \
+            or len(call.args) > len(params):
+        raise AnalysisError(f"C10: {where}: call {norm(call)} of factory {fn_node.name} uses star arguments")
+    try:
+        for p_, v in zip(params, call.args):
+            out[p_] = num.ev(v, env)
+        for k in call.keywords:
+            out[k.arg] = num.ev(k.value, env)
+        defaults = [None] * (len(params) - len(a.defaults)) + list(a.defaults)
+        for p_, d in zip(params, defaults):
+            if p_ not in out and d is not None:
+                out[p_] = num.ev(d, {})
+    except Unknown as u:
+        # type / class arguments (Vector3, ...) are irrelevant to the numeric table: leave them unbound
+        pass
+    for p_, v in zip(params, call.args):
+        if p_ not in out:
+            try:
+                out[p_] = num.ev(v, env)
+            except Unknown:
+                pass
+    return out
+
+
+def _factory_envs(repo: Repo, prims, mod: Module, fac, depth: int) -> List[Tuple[Dict[str, Any], str]]:
+    """Parameter environments of a module-level factory function, one per call site with constant arguments
+    (call sites inside another factory are expanded through that factory's own call sites)."""
+    if depth > 3:
+        return []
+    out: List[Tuple[Dict[str, Any], str]] = []
+    for m2 in repo.modules.values():
+        for c in calls(m2.tree, into_defs=True):
+            fn = c.func
+            hit = False
+            if isinstance(fn, ast.Name) and fn.id == fac.name:
+                tgt = m2.imports.get(fn.id)
+                hit = (m2 is mod and tgt is None) or (tgt == f"{mod.name}.{fac.name}")
+            elif isinstance(fn, ast.Attribute) and fn.attr == fac.name and isinstance(fn.value, ast.Name):
+                hit = m2.imports.get(fn.value.id) == mod.name
+            if not hit:
+                continue
+            num = Num(repo, m2, prims)
+            outer = None
+            for a_ in ancestors(c):
+                if isinstance(a_, FUNC_TYPES):
+                    outer = a_ if isinstance(parent(a_), ast.Module) else False
+                    break
+            if outer is False:
+                continue        # called from a method / nested function: not a table row
+            base_envs = _factory_envs(repo, prims, m2, outer, depth + 1) if outer is not None else [({}, "")]
+            for benv, blabel in base_envs:
+                env = _bind_call(num, fac, c, benv, f"{m2.rel}:{c.lineno}")
+                label = (blabel + " " if blabel else "") + f"{m2.name.split('.')[-1]}:{_context_path(c)}"
+                out.append((env, label))
+    return out
+
+
+def _table_one(ctx, repo, prims, out, c, ci, fam, mod, num, env, where, site_label, qf_cls, fp_cls):
+            def evarg(a, env=env, depth=0):
                 if fam == "qn" and isinstance(a, ast.Call):
                     k = _resolve_cls(repo, mod, a.func)
                     if k is not None and k.name == "NumPyArray":
@@ -1284,6 +1365,15 @@ def discover(ctx, prims) -> List[Inst]:
                         if dt is None:
                             raise AnalysisError(f"C10: {where}: dtype of {norm(a)} not resolvable")
                         return Obj("NumPyArray", dtype=dt)
+                    # a factory returning the array spec: follow its single return expression
+                    if k is None and isinstance(a.func, ast.Name) and depth < 3:
+                        cands = [g for g in repo.funcs.get(a.func.id, []) if g.module is mod and g.cls is None
+                                 and g.parent_fn is None]
+                        if len(cands) == 1:
+                            rets = [r for r in walk(cands[0].node) if isinstance(r, ast.Return) and r.value is not None]
+                            if len(rets) == 1:
+                                env2 = _bind_call(num, cands[0].node, a, env, where)
+                                return evarg(rets[0].value, env2, depth + 1)
                 try:
                     return num.ev(a, env)
                 except Unknown as u:
@@ -1304,7 +1394,7 @@ def discover(ctx, prims) -> List[Inst]:
                     raise AnalysisError(f"C10: {where}: **kwargs in {norm(c)}")
                 kwargs[k.arg] = evarg(k.value)
             short = mod.name.split(".")[-1]
-            base_key = f"{short}:{_context_path(c)}: {ci.name}"
+            base_key = f"{short}:{site_label.split(':', 1)[-1] if site_label else _context_path(c)}: {ci.name}"
             if fam in ("qf", "fp", "qn"):
                 out.append(Inst(f"{base_key}({_argtxt(args, kwargs)})", fam, ci, args, kwargs, mod, c))
             elif fam == "qtc":
@@ -1320,7 +1410,7 @@ def discover(ctx, prims) -> List[Inst]:
                 else:
                     if bound.get("lower") is None or bound.get("upper") is None:
                         ctx.ob("C10.R3", f"{base_key}: range given", False, where, "neither (lower, upper) nor scales")
-                        continue
+                        return
                     scales = ((bound["lower"], bound["upper"]),)
                 for lo, hi in dict.fromkeys(scales):
                     out.append(Inst(f"{base_key}[{prim.name} {lo}..{hi}]", "qf", qf_cls, [prim, lo, hi], {}, mod, c,
@@ -1332,7 +1422,6 @@ def discover(ctx, prims) -> List[Inst]:
                     raise AnalysisError(f"C10: {ci.name}.ELEM_SPEC is not an integer primitive")
                 out.append(Inst(f"{base_key}({_argtxt(args, kwargs)})", "fp", fp_cls, [prim] + args, kwargs, mod, c,
                                 outer=(ci, args, kwargs)))
-    return out
 
 
 def _argtxt(args, kwargs) -> str:
@@ -2073,10 +2162,13 @@ def r1_adapters(ctx):
                 elif isinstance(n, ast.AugAssign) and isinstance(n.op, _ARITH_OPS) and isinstance(n.target, ast.Name) \
                         and n.target.id in derived:
                     problems.append((n, f"`{norm(n)}` updates the value"))
-                elif isinstance(n, ast.Call) and isinstance(n.func, ast.Attribute) and isinstance(n.func.value, ast.Name) \
-                        and n.func.value.id in derived:
-                    # a method of the value itself: arithmetic inside it (normalise, scale, conjugate ...) counts
-                    cands = [g for g in repo.funcs.get(n.func.attr, []) if g.cls is not None]
+                elif isinstance(n, ast.Call) and isinstance(n.func, ast.Attribute) and \
+                        any(isinstance(x, ast.Name) and x.id in derived for x in ast.walk(n.func.value)) \
+                        and not (isinstance(n.func.value, ast.Name) and n.func.value.id in ("self", "cls")):
+                    # a method of the value itself (or of the coordinate object just built from it): arithmetic
+                    # inside it (normalise, scale, conjugate ...) counts
+                    cands = [g for g in repo.funcs.get(n.func.attr, []) if g.cls is not None
+                             and (g.module.rel.endswith("/datatypes.py") or g.module is f.module)]
                     if cands and any(_has_arithmetic(g.node) for g in cands):
                         problems.append((n, f"`{norm(n)}` calls a method that does arithmetic on the value "
                                             f"({', '.join(sorted({g.qual for g in cands if _has_arithmetic(g.node)})[:3])})"))
@@ -2226,6 +2318,55 @@ def r6(ctx, pairs):
                    f"equal: a zero-width range / flat domain axis decodes but raises ZeroDivisionError when encoded")
     ctx.floor("C10.R6", "divisions by a range width", n, 2)
 
+
+def r1_scaling_adapters(ctx):
+    """Hand-written scaling adapters (raw * quantum, raw / steps-per-unit - on registered variables or inside byte
+    templates): the decoded float is raw*q up to rounding error, so the encoder has to convert back with
+    round-to-nearest; floor / int / trunc of the float quotient lands one step low whenever the product came out a
+    hair below the integer (29 * 0.01 / 0.01 == 28.999999999999996)."""
+    repo = ctx.repo
+    adapter = repo.cls("Adapter", SERMOD)
+    n = 0
+    for k in sorted(repo.subclasses(adapter, strict=True), key=lambda c: c.qual):
+        if not k.module.rel.startswith("hippolyzer/lib/base/") or _in_family(repo, k):
+            continue
+        dec, enc = k.methods.get("decode"), k.methods.get("encode")
+        if dec is None or enc is None or len(dec.node.args.args) < 2 or len(enc.node.args.args) < 2:
+            continue
+        dder = _derived_names(dec, {dec.node.args.args[1].arg}, from_reads=False)
+        scaling = None
+        for x in walk(dec.node, into_defs=True):
+            if isinstance(x, ast.BinOp) and isinstance(x.op, (ast.Div, ast.Mult)):
+                lhs = any(isinstance(y, ast.Name) and y.id in dder for y in ast.walk(x.left))
+                rhs = any(isinstance(y, ast.Name) and y.id in dder for y in ast.walk(x.right))
+                other = x.right if lhs else x.left if rhs else None
+                if other is None or (lhs and rhs):
+                    continue
+                int_const = isinstance(other, ast.Constant) and isinstance(other.value, int) and not isinstance(other.value, bool)
+                if isinstance(x.op, ast.Div) and lhs or (isinstance(x.op, ast.Mult) and not int_const):
+                    scaling = x
+        if scaling is None:
+            continue
+        n += 1
+        eder = _derived_names(enc, {enc.node.args.args[1].arg}, from_reads=False)
+        bad = []
+        for c in calls(enc.node, into_defs=True):
+            name = ap(c.func) or ""
+            if name in ("int", "math.floor", "math.trunc", "math.ceil") and c.args:
+                if any(isinstance(x, ast.BinOp) and isinstance(x.op, (ast.Div, ast.Mult)) and
+                       any(isinstance(y, ast.Name) and y.id in eder for y in ast.walk(x)) for x in ast.walk(c.args[0])):
+                    bad.append(c)
+        for x in walk(enc.node, into_defs=True):
+            if isinstance(x, ast.BinOp) and isinstance(x.op, ast.FloorDiv) and \
+                    any(isinstance(y, ast.Name) and y.id in eder for y in ast.walk(x.left)):
+                bad.append(x)
+        ctx.ob("C10.R1", f"{k.name}.encode: scaled value is converted back with round-to-nearest", not bad,
+               ctx.w(enc, bad[0]) if bad else enc.where,
+               (f"`{norm(bad[0])[:80]}` truncates the float quotient, but {k.name}.decode produced the float as "
+                f"`{norm(scaling)[:50]}`: whenever that product is a hair below the exact value the raw integer re-encodes "
+                f"one step low" if bad else ""))
+    ctx.stats["C10.R1.hand-written scaling adapters"] = n
+
 # ------------------------------------------------------------------------------------------ driver
 
 def run(ctx):
@@ -2245,6 +2386,7 @@ def run(ctx):
     r1(ctx, pairs, seqs)
     r1_wrappers(ctx)
     r1_adapters(ctx)
+    r1_scaling_adapters(ctx)
     r2_r3(ctx, pairs, seqs, prims)
     r4(ctx)
     r5(ctx)
